@@ -1,0 +1,104 @@
+//go:build verif
+
+package certmagic
+
+// Verification hooks (build tag "verif" only) for the on-demand handshake logic: thin
+// exported wrappers and snapshot functions. No existing code is changed.
+
+import (
+	"crypto/tls"
+	"sort"
+	"time"
+
+	"golang.org/x/crypto/ocsp"
+)
+
+// VerifNameFromClientHello exposes Config.getNameFromClientHello.
+func VerifNameFromClientHello(cfg *Config, hello *tls.ClientHelloInfo) (string, error) {
+	return cfg.getNameFromClientHello(hello)
+}
+
+// VerifCachedCert describes a certificate in the cache.
+type VerifCachedCert struct {
+	Hash       string
+	Names      []string
+	Managed    bool
+	Serial     string
+	NeedsRenew bool // cfg.certNeedsRenewal(leaf, ari)
+	Expired    bool
+	Revoked    bool
+	ARIRefresh bool // cert.ari.NeedsRefresh()
+}
+
+func verifDescribe(cfg *Config, c Certificate) VerifCachedCert {
+	d := VerifCachedCert{Hash: c.hash, Names: append([]string(nil), c.Names...), Managed: c.managed}
+	if c.Leaf != nil {
+		d.Serial = c.Leaf.SerialNumber.String()
+		d.NeedsRenew = cfg.certNeedsRenewal(c.Leaf, c.ari, false)
+		d.Expired = c.Expired()
+	}
+	d.Revoked = c.ocsp != nil && c.ocsp.Status == ocsp.Revoked
+	d.ARIRefresh = c.ari.NeedsRefresh()
+	return d
+}
+
+// VerifCacheLookup exposes Config.getCertificateFromCache.
+func VerifCacheLookup(cfg *Config, hello *tls.ClientHelloInfo) (cert VerifCachedCert, matched, defaulted bool) {
+	c, m, d := cfg.getCertificateFromCache(hello)
+	if m || d {
+		cert = verifDescribe(cfg, c)
+	}
+	return cert, m, d
+}
+
+// VerifCacheSnapshot lists the cached certificates (sorted by hash) and the name index.
+func VerifCacheSnapshot(cfg *Config) (certs []VerifCachedCert, index map[string][]string) {
+	cc := cfg.certCache
+	cc.mu.RLock()
+	defer cc.mu.RUnlock()
+	for _, c := range cc.cache {
+		certs = append(certs, verifDescribe(cfg, c))
+	}
+	sort.Slice(certs, func(i, j int) bool { return certs[i].Hash < certs[j].Hash })
+	index = map[string][]string{}
+	for k, v := range cc.cacheIndex {
+		index[k] = append([]string(nil), v...)
+	}
+	return certs, index
+}
+
+// VerifSetOCSPStatus gives the cached certificate with the given hash a fresh OCSP response
+// with the given status (ocsp.Good / ocsp.Revoked) and revocation reason, as if a staple had
+// been obtained. It reports whether the certificate was found.
+func VerifSetOCSPStatus(cfg *Config, hash string, status, reason int) bool {
+	cc := cfg.certCache
+	cc.mu.Lock()
+	defer cc.mu.Unlock()
+	c, ok := cc.cache[hash]
+	if !ok {
+		return false
+	}
+	now := time.Now()
+	c.ocsp = &ocsp.Response{Status: status, RevocationReason: reason,
+		ThisUpdate: now.Add(-time.Hour), NextUpdate: now.Add(7 * 24 * time.Hour), RevokedAt: now.Add(-2 * time.Hour)}
+	cc.cache[hash] = c
+	return true
+}
+
+// VerifWaitChans returns the names currently registered in certLoadWaitChans and
+// obtainCertWaitChans (sorted).
+func VerifWaitChans() (load, obtain []string) {
+	certLoadWaitChansMu.Lock()
+	for k := range certLoadWaitChans {
+		load = append(load, k)
+	}
+	certLoadWaitChansMu.Unlock()
+	obtainCertWaitChansMu.Lock()
+	for k := range obtainCertWaitChans {
+		obtain = append(obtain, k)
+	}
+	obtainCertWaitChansMu.Unlock()
+	sort.Strings(load)
+	sort.Strings(obtain)
+	return load, obtain
+}
